@@ -401,6 +401,22 @@ def op_cyclic(systems, t):
         not (op_dzero(systems, t["a"]) or op_dzero(systems, t["b"]))
 
 
+def op_has_nl(systems, t):
+    if t["o"] == "sys":
+        return bool(systems[t["i"]].get("nl"))
+    return any(op_has_nl(systems, t[k]) for k in ("a", "b") if k in t)
+
+
+def op_cyclic_inner_nl(systems, t):
+    """a PROPER sub-expression is a feedback node that closes a loop through two direct terms and
+    contains a nonlinear operand: it is built as an InterconnectedSystem whose algebraic loop is only
+    looked for by `_compute_static_io` at the values the enclosing system happens to feed it, whereas
+    the model linearises every node on unit perturbations.  The wiring has an algebraic loop: it is
+    outside the property's quantifier, whichever side notices."""
+    kids = [t[k] for k in ("a", "b") if k in t]
+    return any((op_cyclic(systems, k) and op_has_nl(systems, k)) for k in kids)
+
+
 def op_nodes(t):
     yield t
     for k in ("a", "b"):
@@ -2046,6 +2062,13 @@ class C07(Family):
         if "err" in mo and "err" in im:
             return None
         if "err" in mo:
+            if mo["err"] == "illPosed" and case.get("tag") == "op" \
+                    and op_cyclic_inner_nl(case["sys"], case["calls"][k]["op"]):
+                # an inner nonlinear feedback node with an algebraic loop that the enclosing system never
+                # excites (e.g. it is driven by a block with zero direct term and no states): the model
+                # reports the loop when it linearises the inner node, the code would only when the node
+                # is evaluated at a non-zero input.  Not a wiring the property quantifies over.
+                return None
             feat.update(kind="no-raise", model_err=mo["err"])
             # operands of incompatible sizes: there are no signal-flow equations to realise
             st = VIOLATES if mo["err"] in ("indexRange", "unknownName", "illPosed") \
